@@ -117,6 +117,25 @@ def p_inner_split_over_multi_axis_upstream(prog):
     return False
 
 
+def p_same_upstream_twice_next_to_other_state(prog):
+    try:
+        _, res = RW.evaluate(prog)
+    except Exception:
+        return False
+    for nd in prog["nodes"]:
+        ups = [s[1] for s in nd["in"].values() if s[0] == "node" and res[s[1]]["axes"]]
+        twice = {u for u in ups if ups.count(u) >= 2}
+        if twice and set(ups) - twice:
+            return True
+    return False
+
+
+def p_inner_split_over_combined_upstream(prog):
+    nodes = {nd["name"]: nd for nd in prog["nodes"]}
+    return any(s[0] == "splitnode" and nodes[s[1]].get("combine")
+               for nd in prog["nodes"] for s in nd["in"].values())
+
+
 def p_empty_inner_split_combined(prog):
     kinds = {nd["name"]: nd["kind"] for nd in prog["nodes"]}
     for nd in prog["nodes"]:
@@ -138,6 +157,9 @@ CLASSES = [
     ("wrong-values", p_fan_in_shared_origin, "fan-in-of-shared-origin-multiplied-instead-of-aligned"),
     ("KeyError@state.py:combine_final_groups", p_fan_in_shared_origin,
      "combiner-below-fan-in-of-shared-origin"),
+    ("wrong-values", p_same_upstream_twice_next_to_other_state,
+     "same-stateful-upstream-in-two-fields-next-to-another-stateful-upstream"),
+    ("wrong-values", p_inner_split_over_combined_upstream, "inner-split-over-combined-upstream-output"),
     ("wrong-order", p_empty_inner_split_combined, "empty-group-of-combined-inner-split-lost-in-workflow-output"),
 ]
 
